@@ -99,14 +99,66 @@ def init_params(fn, fid, path=None, presets=None):
     """Path whose parameter locals are opaque symbols named after the source parameters (or the given terms)."""
     p = path or S.Path()
     names = fn.names()
+    # a method that was turned into a free function (analysed under its known name, see mirlib.ALIASES): the parameter that
+    # carries the former receiver is `self`
+    recv = None
+    if fn.j.get("alias_of") and not fn.name.startswith("<"):
+        tn = re.sub(r"::<[^<>]*>", "", fn.name).split("::")
+        if len(tn) >= 2 and fn.argc >= 1 and re.search(r"\b%s\b" % re.escape(tn[-2]), fn.locals[1]["ty"]) and "self" not in names.values():
+            recv = 1
     for a in range(1, fn.argc + 1):
         ty = fn.locals[a]["ty"]
-        nm = names.get(a, "arg%d" % a)
+        nm = "self" if a == recv else names.get(a, "arg%d" % a)
         p.locals[(fid, a)] = (presets or {}).get(a, ("sym", nm))
     return p
 
 
+def auto_presets(facts, fn):
+    """For a function that was moved (method <-> free function, mirlib.ALIASES): parameters that every call site fills with
+    the same plain path over the caller's receiver (`&self.terminal_ids`) are named after that path, so that the moved
+    function is analysed in the vocabulary it had as a method."""
+    out = None
+    for g in facts.fns.values():
+        if g is fn or g.j.get("exp"):
+            continue
+        sites = [t for bb, t in g.calls() if call_is(t, fn)]
+        for t in sites:
+            pv = M.Prov(g)
+            cur = {}
+            for i, a in enumerate(t["args"]):
+                try:
+                    v = _conv_path(pv.operand(a))
+                except Exception:
+                    v = None
+                if v is not None and S.fstr(v).startswith("self."):
+                    cur[i + 1] = v
+            out = cur if out is None else {k: v for k, v in out.items() if cur.get(k) == v}
+    return out or {}
+
+
+def call_is(t, fn):
+    r = t.get("resolved") or t.get("callee")
+    return r == fn.key or t.get("callee") == fn.key
+
+
+def _conv_path(e):
+    if e[0] == "arg":
+        return ("sym", e[2])
+    if e[0] == "phi" and isinstance(e[-1], str) and e[-1] and any(a[0] == "arg" for a in e[1]):
+        return ("sym", e[-1])      # a parameter that is mutated through (`&mut self`): still that parameter
+    if e[0] in ("ref", "deref"):
+        return _conv_path(e[1])
+    if e[0] == "call" and len(e[2]) == 1 and re.search(r"Deref>::deref$|DerefMut>::deref_mut$|::as_slice$|::as_str$|AsRef<.*>>::as_ref$|Borrow<.*>>::borrow$|::as_mut_slice$", str(e[1])):
+        return _conv_path(e[2][0])
+    if e[0] == "field":
+        b = _conv_path(e[1])
+        return ("field", b, e[2]) if b is not None else None
+    return None
+
+
 def run_fn(fn, facts, model=None, cut_back_edges=True, presets=None, **kw):
+    if presets is None and fn.j.get("alias_of"):
+        presets = auto_presets(facts, fn)
     kw.setdefault("desugar", DESUGAR_DEFAULT)
     ex = S.Engine(fn, facts, model or BaseModel(), cut_edges=fn.back_edges() if cut_back_edges else (), **kw)
     paths = ex.run(0, init_params(fn, ex.fid, presets=presets))
@@ -123,6 +175,8 @@ def caller_view(caller, callee, call_rx, pick=None):
     def conv(e):
         if e[0] == "arg":
             return ("sym", e[2])
+        if e[0] == "phi" and isinstance(e[-1], str) and e[-1] and any(a[0] == "arg" for a in e[1]):
+            return ("sym", e[-1])
         if e[0] in ("ref", "deref"):
             return conv(e[1])
         if e[0] == "call" and len(e[2]) == 1 and re.search(r"Deref>::deref$|DerefMut>::deref_mut$|::as_slice$|::as_str$|AsRef<.*>>::as_ref$|Borrow<.*>>::borrow$", str(e[1])):
@@ -325,6 +379,89 @@ def compiled_scanner_is_frozen(ctx, rule):
     ctx.floor(rule, "writers of compiled-scanner fields", n, 8)
 
 
+# ---- field-wise equality / hashing of a hand-written impl (used by C13.a and by the key-type rule C02.n)
+def strip_ref(t):
+    while t[0] in ("ref", "deref") or (t[0] == "app" and re.search(r"Deref>::deref$|Borrow<.*>>::borrow$|AsRef<.*>>::as_ref$", str(t[1])) and len(t[2]) == 1):
+        if t[0] == "ref":
+            loc = t[1]
+            if loc[0] == "loc" and loc[1][0] == "sym":
+                return ("loc", loc[1], tuple(st[1] for st in loc[2]))
+            return t
+        t = t[1] if t[0] == "deref" else t[2][0]
+    return t
+
+def side(t):
+    """('self'|'other', field) if t denotes <self|other>.<field> (through any number of references), else None"""
+    s_ = S.fstr(t).lstrip("&*")
+    m = re.match(r"^\(?\*?(self|other|arg1|arg2)\)?\.(\w+)$", s_)
+    if m:
+        return ({"arg1": "self", "arg2": "other"}.get(m.group(1), m.group(1)), m.group(2))
+    return None
+
+def eq_fields(t, outcome=True):
+    l = r = None
+    neg = False
+    if t[0] == "binop" and t[1] in ("Eq", "Ne"):
+        l, r, neg = t[2], t[3], t[1] == "Ne"
+    elif t[0] == "app" and re.search(r"PartialEq(<[^>]*>)?>::(eq|ne)$", str(t[1])) and len(t[2]) == 2:
+        l, r, neg = t[2][0], t[2][1], str(t[1]).endswith("::ne")
+    elif t[0] == "not":
+        return eq_fields(t[1], not outcome)
+    if l is None:
+        return None
+    if (outcome is True) == neg:
+        return None          # this atom being (un)true says the fields differ
+    a_, b_ = side(l), side(r)
+    if a_ and b_ and a_[1] == b_[1] and {a_[0], b_[0]} == {"self", "other"}:
+        return a_[1]
+    return None
+
+def fieldwise_eq(F, fn, fields):
+    ex_, ps_ = run_fn(fn, F, BaseModel(), max_paths=4000)
+    bad = []
+    n_true = 0
+    for p_ in ret_paths(ps_):
+        r_ = p_.end[1]
+        if r_ == ("bool", False):
+            continue
+        got = set()
+        for c_, o_ in p_.conds:
+            if isinstance(o_, bool):
+                f_ = eq_fields(c_, o_)
+                if f_:
+                    got.add(f_)
+        if r_ != ("bool", True):
+            f_ = eq_fields(r_, True)
+            if f_:
+                got.add(f_)
+            else:
+                bad.append("result %s is not a comparison of one field of self with the same field of other" % S.fstr(r_)[:70])
+                continue
+        n_true += 1
+        if not set(fields) <= got:
+            bad.append("can answer 'equal' after comparing only %s of %s" % (sorted(got), fields))
+    return (n_true >= 1 and not bad), "; ".join(bad[:2]) or "every accepting path compares %s" % fields
+
+def fieldwise_hash(F, fn, fields):
+    ex_, ps_ = run_fn(fn, F, BaseModel(), max_paths=4000)
+    bad = []
+    n_ = 0
+    for p_ in ret_paths(ps_):
+        n_ += 1
+        got = set()
+        for c_ in p_.calls(r"Hash>::hash(::<.*>)?$|Hasher>::write\w*$"):
+            a0 = c_[3][0]
+            v_ = ex_.deref_val(p_, a0) if a0[0] == "ref" else a0
+            for cand in (a0, v_):
+                sd = side(cand)
+                if sd and sd[0] == "self":
+                    got.add(sd[1])
+        if not set(fields) <= got:
+            bad.append("hashes only %s of %s" % (sorted(got), fields))
+    return (n_ >= 1 and not bad), "; ".join(bad[:2]) or "every path hashes %s" % fields
+
+
+
 KEY_TRAITS = ("std::cmp::PartialEq", "std::cmp::Eq", "std::cmp::PartialOrd", "std::cmp::Ord", "std::hash::Hash",
               # ... and they are copied and default-initialised field by field (`StateID::default()` is state 0 everywhere)
               "std::clone::Clone", "std::default::Default")
@@ -336,6 +473,57 @@ KEY_IMPLS_BY_HAND = {
     "pattern::Pattern": "C13.a decides that PartialEq / Hash read every field",
     "pattern::Lookahead": "C13.a decides that PartialEq / Hash read every field",
 }
+
+
+def faithful_impl(F, tname, trait):
+    """(ok, description): a hand-written PartialEq / Eq / PartialOrd / Ord / Hash / Clone / Default of a struct is the derive
+    written out — it compares / orders / hashes / copies exactly the fields, in declaration order.  Decided for structs with
+    ONE field completely (eq = the field's ==, cmp = the field's cmp, partial_cmp = the field's partial_cmp or Some(cmp), hash
+    feeds the field, clone rebuilds it, default is the field's default); for structs with several fields equality and hashing
+    are decided (every field, fieldwise), ordering is not (reported)."""
+    a = F.adts.get(tname)
+    if not a or len(a.get("variants", [])) != 1:
+        return False, "not a struct"
+    fields = [f["name"] for f in a["variants"][0]["fields"]]
+    short = trait.split("::")[-1]
+    if short == "Eq":
+        return True, "marker impl"
+    method = {"PartialEq": "eq", "PartialOrd": "partial_cmp", "Ord": "cmp", "Hash": "hash", "Clone": "clone", "Default": "default"}[short]
+    body = [f_ for f_ in F.fns.values() if re.match(r"^<%s as %s(<.*>)?>::%s$" % (re.escape(tname), re.escape(trait), method), f_.name)]
+    if len(body) != 1:
+        return False, "no unique body"
+    fn = body[0]
+    try:
+        if short == "PartialEq":
+            return fieldwise_eq(F, fn, fields)
+        if short == "Hash":
+            return fieldwise_hash(F, fn, fields)
+        ex, ps = run_fn(fn, F, BaseModel(), max_paths=400, inline=r"^<%s as std::cmp::Ord>::cmp$|%s::new$" % (re.escape(tname), re.escape(tname)))
+        rp = ret_paths(ps)
+        if not rp or len(rp) != len(ps):
+            return False, "not every path returns"
+        strip = lambda t_: re.sub(r"[&*()]", "", S.fstr(t_))
+        rets = sorted({strip(p_.end[1]) for p_ in rp})
+        if short == "Clone":
+            want = {"self", short_adt(tname) + ", ".join("self." + f_ for f_ in fields)}
+            return (len(rets) == 1 and rets[0] in want), "returns %s" % rets
+        if short == "Default":
+            okd = all(p_.end[1][0] == "adt" and len(p_.end[1][3]) == len(fields) and all(re.match(r"^(\w+::)*(default|new)$|^vec!\[\]$|^0$|^false$|^None$|^\"\"$", strip(v_)) for v_ in p_.end[1][3]) for p_ in rp)
+            return okd, "returns %s" % rets
+        if len(fields) != 1:
+            return False, "ordering of a struct with %d fields is not decided" % len(fields)
+        f0 = fields[0]
+        if short == "Ord":
+            want = {"cmpself.%s, other.%s" % (f0, f0), "Ord::cmpself.%s, other.%s" % (f0, f0)}
+        else:
+            want = {"partial_cmpself.%s, other.%s" % (f0, f0), "Somecmpself.%s, other.%s" % (f0, f0), "PartialOrd::partial_cmpself.%s, other.%s" % (f0, f0)}
+        return (len(rets) == 1 and rets[0] in want), "returns %s" % rets
+    except Exception as e:
+        return False, "not understood (%s)" % type(e).__name__
+
+
+def short_adt(tname):
+    return tname.split("::")[-1]
 
 
 def key_types_compare_structurally(ctx, rule):
@@ -377,9 +565,12 @@ def key_types_compare_structurally(ctx, rule):
         for i in impls:
             n += 1
             by_hand = KEY_IMPLS_BY_HAND.get(k)
-            ok = bool(i["derived"]) or bool(i.get("exp_outer") and "impl_id" in str(i.get("exp_outer"))) or bool(i.get("exp") and "impl_id" in str(i.get("exp")))
+            ok = bool(i["derived"])
+            how = "derived"
+            if not ok and by_hand is None:
+                ok, how = faithful_impl(F, k, i["trait"])
             ctx.ob(rule, "key-type-compares-structurally:%s:%s" % (M.short_name(k), i["trait"].split("::")[-1]), ok or by_hand is not None,
-                   "%s for %s (a map/set key) is %s%s" % (i["trait"].split("::")[-1], k, "derived" if ok else "written by hand", (" — " + by_hand) if (by_hand and not ok) else ""), i.get("file", ""))
+                   "%s for %s (a map/set key) is %s%s" % (i["trait"].split("::")[-1], k, how if ok else "written by hand: " + how, (" — " + by_hand) if (by_hand and not ok) else ""), i.get("file", ""))
     ctx.floor(rule, "comparison impls of key types", n, 10)
 
 
